@@ -53,18 +53,46 @@ def native_shard_ids(model):
         return None
     # expected values are computed here, independently (Python integers + hashlib)
     import hashlib
-    exp = []
-    for key, h in ((b"kismet: primary shard mixer", h1), (b"kismet: secondary shard mixer", h2)):
+    consts = []
+    for key in (b"kismet: primary shard mixer", b"kismet: secondary shard mixer"):
         d = hashlib.sha256(key).digest()
-        m = int.from_bytes(d[0:8], "little") | 1
-        a = int.from_bytes(d[8:16], "little")
-        exp.append((ns * ((h * m + a) % (1 << 64))) >> 64)
-    p, s = exp
-    if s == p:
-        s = s + 1 if s + 1 < ns else 0
-    return ("""    let c = Cache::new(std::path::PathBuf::from("/nonexistent"), %dusize, %dusize);
-    let got = c.shard_ids(Key::new("k", %du64, %du64));
-    assert!(got == (%dusize, %dusize), "KV-C12: shard_ids = documented mapping: got {:?}", got);""" % (ns, ns, h1, h2, p, s))
+        consts.append((int.from_bytes(d[0:8], "little") | 1, int.from_bytes(d[8:16], "little")))
+
+    def expected(a, b, n):
+        p = (n * ((a * consts[0][0] + consts[0][1]) % (1 << 64))) >> 64
+        q = (n * ((b * consts[1][0] + consts[1][1]) % (1 << 64))) >> 64
+        collided = q == p
+        if collided:
+            q = q + 1 if q + 1 < n else 0
+        return p, q, collided
+
+    # the solver's model is over abstract mixer constants: with the real constants the same hashes need not
+    # collide.  Evaluate the model's point and, for the same and a few other shard counts, points where the two
+    # images do collide (even / odd primary, last shard: the wrap-around case).
+    cases = [(h1, h2, ns)]
+    for n in sorted(set([ns, 2, 3, 5, 8, 64]))[:6]:
+        if n < 2:
+            continue
+        want = {"even": None, "odd": None, "last": None}
+        a = 0
+        while a < 4000 and None in want.values():
+            for b in range(0, 40):
+                p, q, col = expected(a, b, n)
+                if col:
+                    k = "last" if p == n - 1 else ("odd" if p % 2 else "even")
+                    if want[k] is None:
+                        want[k] = (a, b, n)
+            a += 1
+        cases += [v for v in want.values() if v is not None]
+    body = []
+    for (a, b, n) in cases:
+        p, q, _c = expected(a, b, n)
+        body.append("""    {
+        let c = Cache::new(std::path::PathBuf::from("/nonexistent"), %dusize, %dusize);
+        let got = c.shard_ids(Key::new("k", %du64, %du64));
+        assert!(got == (%dusize, %dusize), "KV-C12: shard_ids = documented mapping: got {:?} for hashes (%d, %d) and %d shards", got);
+    }""" % (n, n, a, b, p, q, a, b, n))
+    return "\n".join(body)
 
 
 def _panic_obligations(ex, prefix, assumptions, functions):
